@@ -392,6 +392,28 @@ class Interp:
         self.inlined = set()
 
     # ------------------------------------------------------------------ modules
+    def load_virtual(self, dotted, rel, text, predefined=None):
+        """a module whose python text is produced mechanically from a file of another dialect (vc/depyx.py for .pyx): interpreted like a repository module;
+        `predefined` binds the names the extraction leaves to the C level"""
+        m = ModuleVal(dotted, rel)
+        m.env.vars['__name__'] = dotted
+        m.env.vars.update(predefined or {})
+        self.modules[dotted] = m
+        self.__dict__.setdefault('virtual_rels', {})[rel] = dotted
+        try:
+            tree = ast.parse(text, filename=rel)
+        except SyntaxError as e:
+            raise CheckerError(f'cannot parse the extracted text of {rel}: {e}')
+        m.tree = tree
+        saved = self.ctx
+        self.ctx = PathCtx([])
+        self.ctx.abstract = self.w.abstract
+        try:
+            self.exec_block(tree.body, m.env, m, qual='')
+        finally:
+            self.ctx = saved
+        return m
+
     def load_module(self, dotted):
         if dotted in self.modules:
             return self.modules[dotted]
@@ -428,6 +450,8 @@ class Interp:
 
     def find_function(self, rel, qualname):
         dotted = rel[:-3].replace('/', '.')
+        if rel in getattr(self, 'virtual_rels', {}):
+            dotted = self.virtual_rels[rel]
         if dotted.endswith('.__init__'):
             dotted = dotted[:-9]
         m = self.load_module(dotted)
